@@ -4,7 +4,9 @@ package main
 
 import (
 	"fmt"
+	"strings"
 	"sync/atomic"
+	"time"
 
 	"verif/mc"
 
@@ -98,6 +100,60 @@ func checkSlices(t trace, lhs, rhs []int) *mc.Failure {
 }
 
 func checkSlices1(t trace, lhs, rhs []int) *mc.Failure {
+	return checkSlicesWith(t, lhs, rhs, func(a, b []int) int { n, _ := lcsInfo(a, b); return n })
+}
+
+// lcsLen is the two-row length-only oracle used for the huge inputs.
+func lcsLen(a, b []int) int {
+	prev := make([]int, len(b)+1)
+	cur := make([]int, len(b)+1)
+	for i := 1; i <= len(a); i++ {
+		x := a[i-1]
+		for j := 1; j <= len(b); j++ {
+			switch {
+			case x == b[j-1]:
+				cur[j] = prev[j-1] + 1
+			case prev[j] >= cur[j-1]:
+				cur[j] = prev[j]
+			default:
+				cur[j] = cur[j-1]
+			}
+		}
+		prev, cur = cur, prev
+	}
+	return prev[len(b)]
+}
+
+// hugeLimit: a 65537 x 65537 table takes tens of seconds, not microseconds.
+const hugeLimit = 15 * time.Minute
+
+// huge describes a pair built by mc.HugePair.
+type huge struct {
+	Kind string `json:"kind"`
+	N    int    `json:"n"`
+	Swap bool   `json:"swap,omitempty"`
+}
+
+func checkHuge(h huge) *mc.Failure {
+	a, b := mc.HugePair(h.Kind, h.N)
+	if h.Swap {
+		a, b = b, a
+	}
+	t := trace{a, b}
+	lhs := append([]int(nil), a...)
+	rhs := append([]int(nil), b...)
+	f := mc.GuardTL("editscript-huge", h, hugeLimit, func() *mc.Failure { return checkSlicesWith(t, lhs, rhs, lcsLen) })
+	if f != nil {
+		msg := f.Msg
+		if i := strings.LastIndex(msg, "]"); i >= 0 && len(msg) > 400 { // keep the verdict after the printed inputs
+			msg = "... " + msg[max(i-150, 0):]
+		}
+		f.Msg = fmt.Sprintf("huge inputs (%s, %d and %d elements): %.400s", h.Kind, len(a), len(b), msg)
+	}
+	return f
+}
+
+func checkSlicesWith(t trace, lhs, rhs []int, lcs func(a, b []int) int) *mc.Failure {
 	es := slice.EditScript(lhs, rhs)
 	if !mc.EqInts(lhs, t.L) || !mc.EqInts(rhs, t.R) {
 		return mc.Failf(0, "EditScript modified its input")
@@ -159,7 +215,7 @@ func checkSlices1(t trace, lhs, rhs []int) *mc.Failure {
 		if lp != len(lhs) || rp != len(rhs) || !mc.EqInts(out, rhs) {
 			return mc.Failf(0, "EditScript(%v,%v)=%v consumes %d/%d of lhs and produces %v", lhs, rhs, es, lp, len(lhs), out)
 		}
-		if want, _ := lcsInfo(lhs, rhs); kept != want {
+		if want := lcs(lhs, rhs); kept != want {
 			return mc.Failf(0, "EditScript(%v,%v)=%v keeps %d elements, a longest common subsequence has %d", lhs, rhs, es, kept, want)
 		}
 	}
@@ -240,6 +296,48 @@ func main() {
 				return mc.Failf(-1, "bad trace: %v", err)
 			}
 			return check(t)
+		},
+	}, mc.Harness{
+		Name: "editscript-huge", HangLimit: hugeLimit,
+		Explore: func(r *mc.Run) {
+			// sizes around powers of two, where fixed-size buffers, narrowed
+			// index types and strides change behaviour
+			sizes := mc.Pick(r, []int{1023, 1024, 1025, 4095, 4096, 4097}, []int{1023, 1024, 1025, 4095, 4096, 4097, 16383, 16384, 16385, 32768, 65535, 65536, 65537})
+			var cases []huge
+			for _, n := range sizes {
+				for _, k := range mc.HugeKinds {
+					if n > 5000 && (k == "periodic" || k == "lcg4") {
+						continue // these allocate a path node per matching cell
+					}
+					cases = append(cases, huge{k, n, false})
+					if k != "equal" && k != "change" {
+						cases = append(cases, huge{k, n, true})
+					}
+				}
+			}
+			mc.ParallelFor(len(cases), r.Workers, func(i int) {
+				if r.Expired() {
+					return
+				}
+				if f := checkHuge(cases[i]); f != nil {
+					r.Violation(mc.Case{Harness: "editscript-huge", Trace: mc.J(cases[i]), Msg: f.Msg})
+				}
+			})
+			if r.Expired() {
+				r.NotExhaustive("tier budget reached")
+			}
+			r.AddEval(int64(len(cases)), int64(len(cases)), int64(len(cases)), int64(len(cases)))
+			r.Bound("sizes", fmt.Sprint(sizes))
+			r.Bound("kinds", fmt.Sprint(mc.HugeKinds))
+			r.Rule("a fixed family of long pairs (distinct elements with one insertion, deletion, change, swapped halves, reversed tail; 3- and 4-valued sequences up to 4097) at sizes around powers of two, both argument orders, against a two-row length oracle")
+			r.Sample(huge{"insert", 4096, false})
+		},
+		Replay: func(c mc.Case) *mc.Failure {
+			var h huge
+			if err := mc.Unmarshal(c.Trace, &h); err != nil {
+				return mc.Failf(-1, "bad trace: %v", err)
+			}
+			return checkHuge(h)
 		},
 	}, mc.Harness{
 		Name: "editscript-aliased",
